@@ -17,8 +17,8 @@ SPEC = dict(
          "(mostly starting with a correct login); a fresh server, victim login and attacker connection per script. Every line compares "
          "with the Lean model: canonical elements received by attacker and victim, stanzas the attacker's QXmppIncomingClient emitted "
          "for routing, clientConnected/clientDisconnected signals, the jid at each auth.success counter and the server-side jid() after "
-         "the step. Inputs on which the C++ dereferences a null saslServer / disengaged sasl2AuthRequest are predicted 'ub' by the "
-         "model and not executed. A sequence is non-trivial when it yields >= 2 distinct observations.",
+         "the step. Inputs on which the C++ dereferences a disengaged sasl2AuthRequest are predicted 'ub' by the "
+         "model and not executed. The witnesses of the four former findings are the first corpus scripts. A sequence is non-trivial when it yields >= 2 distinct observations.",
     trusted_base=[
         "Lean 4.33.0 kernel; axioms per theorem listed under coverage.theorems (subset of propext, Classical.choice, Quot.sound)",
         "hand-written model lean/Qx/Model/C16Server.lean, tied to src/server/QXmppIncomingClient.cpp, src/server/QXmppServer.cpp, "
@@ -34,20 +34,19 @@ SPEC = dict(
         "no server extensions, no S2S listener, no TLS (setLocalCertificate not called): default stanza handler only",
         "delivery through a routing-table entry that points to an already deleted connection (use-after-free in C++ after a rebind) "
         "is modelled as 'nothing written' and is not reachable with one attacker connection per script; memory safety is not claimed",
-        "inputs that reach undefined behaviour in the C++ (checker reply after stream restart = null saslServer; SASL2 success with "
-        "a reset sasl2AuthRequest) end the modelled connection with an 'ub' output; nothing is claimed after such a point",
+        "inputs that reach undefined behaviour in the C++ (SASL2 success with a reset or never-set sasl2AuthRequest) end the "
+        "modelled connection with an 'ub' output; nothing is claimed after such a point",
         "bind resources are not trimmed in the model (the harness sends none with surrounding white space); generated resources are "
         "canonicalised by order of first appearance",
     ],
-    level_text="Theorems for every checker, every number of connections and every interleaved script: from stamping and no spoofing "
-               "(from_is_authenticated_jid, cannot_spoof, replies_addressed_to_sender) hold for today's code; 'accepted only as a "
-               "checker-approved user' and 'nothing bound/routed/answered before authentication' are proved under named hypotheses "
-               "(*_partial), refuted for today's code with witnesses (C16_defect_*), and proved at full strength for the code with "
-               "fixes/C16-preauth.diff and fixes/C16-reply-binding.diff (*_fixed). Model tied to the real server by exhaustive + "
-               "random loopback scripts.",
+    level_text="Theorems for every checker, every number of connections and every interleaved script, without hypotheses on the "
+               "script: accepted only as a checker-approved user (auth_only_if_checker_approved), nothing bound/routed/answered "
+               "before authentication (needs_auth_only_authenticated, routes_/bind_only_authenticated), from stamping and no "
+               "spoofing (from_is_authenticated_jid, cannot_spoof, cannot_spoof_approved, replies_addressed_to_sender). Model tied "
+               "to the real server by exhaustive + random loopback scripts.",
     level_note="Proved about the hand-written model; model-to-code tie is differential (exhaustive to a depth, sampled beyond). "
-               "Four recorded findings: pre-auth stanza routed, pre-auth bind, pre-auth session answered, checker reply applied to a "
-               "different SASL exchange (identity confusion).",
+               "Four former findings (pre-auth stanza routed, pre-auth bind, pre-auth session answered, checker reply applied to a "
+               "different SASL exchange) are fixed in the repo (73b9a89, e590a14); their witnesses stay in the corpus.",
     design_ref="5.16",
     technique="Lean 4 invariant proofs over op lists + model/implementation correspondence on loopback",
 )
